@@ -16,6 +16,7 @@ structure Cfg.ClosedCore (P : Cfg → Prop) : Prop where
   setTags : ∀ (c : Cfg) (k : Key) (ts : List Nat), P c →
     P (({ c with tags := c.tags.set k ts } : Cfg).log k (.tags ts))
   logTags : ∀ (c : Cfg) (k : Key), P c → P (c.log k (.tags (c.tagsOf k)))
+  logFn : ∀ (c : Cfg), P c → P (c.log (.name "__fn_or_cls__") (.val (.v 0)))
 
 theorem Cfg.ClosedCore.toClosedT {P : Cfg → Prop} (h : Cfg.ClosedCore P) : Cfg.ClosedT P where
   base := {
@@ -45,6 +46,7 @@ theorem Cfg.ClosedCore.toClosedT {P : Cfg → Prop} (h : Cfg.ClosedCore P) : Cfg
       · cases hd }
   setTags := h.setTags
   logTags := h.logTags
+  logFn := h.logFn
 
 /-- If any tag update was logged for `k`, the last one is `k`'s current tag set (an argument
     without a stored tag set has the empty one, as with Python's `defaultdict(set)`). -/
@@ -124,6 +126,17 @@ theorem HistInv_tagStep (c c0 : Cfg) (k : Key) (ts : List Nat) (ha : c0.args = c
   rw [log_tracking] at ht
   exact ValuesFaithful_logTags _ _ _ (hi0.vals ht)
 
+theorem ValuesFaithful_logFn (c : Cfg) (hf : ValuesFaithful c) :
+    ValuesFaithful (c.log fnKey (.val (.v 0))) := by
+  by_cases ht : c.tracking = true
+  · intro k hk
+    rw [log_args, log_hist_on _ _ _ ht]
+    simp only [lastValue_append]
+    have hne : ¬ (fnKey = k ∧ (HVal.val (Val.v 0)).isValue = true) := fun e => hk e.1.symm
+    simp only [hne, if_false]
+    exact hf k hk
+  · rw [log_off _ _ _ (by simpa using ht)]; exact hf
+
 theorem HistInvT_core : Cfg.ClosedCore HistInvT where
   plain := by
     intro c k v hc
@@ -176,6 +189,17 @@ theorem HistInvT_core : Cfg.ClosedCore HistInvT where
     intro ht
     rw [log_tracking] at ht
     exact TagsFaithfulT_logTags c k ht (hc.tagsF ht)
+  logFn := by
+    intro c hc
+    refine ⟨⟨?_, ?_, ?_⟩, ?_⟩
+    · rw [log_args]; exact hc.base.nodup
+    · exact SeqOK_log _ _ _ hc.base.seq
+    · intro ht
+      rw [log_tracking] at ht
+      exact ValuesFaithful_logFn c (hc.base.vals ht)
+    · intro ht
+      rw [log_tracking] at ht
+      exact TagsFaithfulT_value c c (.name "__fn_or_cls__") (.val (.v 0)) rfl rfl rfl rfl rfl (hc.tagsF ht)
 
 /-- ... for histories during which tracking is never switched off. -/
 def TrackedInvT (c : Cfg) : Prop := HistInvT c ∧ c.tracking = true
@@ -185,6 +209,7 @@ theorem TrackedInvT_core : Cfg.ClosedCore TrackedInvT where
   del := fun c k ⟨hi, ht⟩ => ⟨HistInvT_core.del c k hi, by rw [log_tracking]; exact ht⟩
   setTags := fun c k ts ⟨hi, ht⟩ => ⟨HistInvT_core.setTags c k ts hi, by rw [log_tracking]; exact ht⟩
   logTags := fun c k ⟨hi, ht⟩ => ⟨HistInvT_core.logTags c k hi, by rw [log_tracking]; exact ht⟩
+  logFn := fun c ⟨hi, ht⟩ => ⟨HistInvT_core.logFn c hi, by rw [log_tracking]; exact ht⟩
 
 /-- While tracking is off nothing is appended and no sequence number is drawn, whatever the edit. -/
 theorem Silent_core (h0 : List HEntry) (n0 : Nat) : Cfg.ClosedCore (Silent h0 n0) where
@@ -199,6 +224,9 @@ theorem Silent_core (h0 : List HEntry) (n0 : Nat) : Cfg.ClosedCore (Silent h0 n0
     rw [log_off _ _ _ (by simpa using ht)]; exact ⟨ht, hh, hn⟩
   logTags := by
     intro c k ⟨ht, hh, hn⟩
+    rw [log_off _ _ _ (by simpa using ht)]; exact ⟨ht, hh, hn⟩
+  logFn := by
+    intro c ⟨ht, hh, hn⟩
     rw [log_off _ _ _ (by simpa using ht)]; exact ⟨ht, hh, hn⟩
 
 end Fiddle
